@@ -263,6 +263,37 @@ def Reported (t : TagCall) : Prop :=
   ∨ ContentTypeRule x cs fs t ∨ DateRule now f fs t
   ∨ ProjectRule x fs t ∨ ReportRule x fs t ∨ TranslatorRule x f fs t ∨ TeamRule x f fs t
 
+/-- **a header that follows every convention**: no boilerplate in the initial comments; exactly one header entry, the first of
+    the file, without references, plural forms, flags or unusual characters; every line a field; every field name registered
+    or `X-` prefixed and used once; `MIME-Version: 1.0`, `Content-Transfer-Encoding: 8bit`, `Content-Type: text/plain;
+    charset=<enc>` with a charset C20 has nothing to say about; dates C18 has nothing to say about; a project id with a
+    name and a version; a bug address that is a URL or an e-mail address outside reserved and dot-less domains; a translator
+    with such an address; a team with a URL / name or such an address other than the translator's. -/
+structure Conventional : Prop where
+  comments : ∀ line ∈ splitlines f.comments, commentLineHit x.db f.kind.isTemplate line = false
+  entry : ∃ e, headerEntries f.entries = [(e, 0)] ∧ e.occurrences = [] ∧ e.msgidPlural = none ∧ e.flags = [] ∧
+    unusualChars x.db (entryText e) = []
+  noStray : strays (headerLinesOf f.entries) = []
+  names : ∀ k ∈ (fieldLines (headerLinesOf f.entries)).map (·.1),
+    (XPrefixed k ∨ k ∈ registered) ∧ ((fieldLines (headerLinesOf f.entries)).filter (·.1 = k)).length = 1
+  mime : vals (fieldLines (headerLinesOf f.entries)) "MIME-Version" = ["1.0".toList]
+  cte : vals (fieldLines (headerLinesOf f.entries)) "Content-Transfer-Encoding" = ["8bit".toList]
+  ctype : ∃ enc kept, vals (fieldLines (headerLinesOf f.entries)) "Content-Type" = ["text/plain; charset=".toList ++ enc] ∧
+    CharsetOf x.db ("text/plain; charset=".toList ++ enc) true enc ∧ cs (toName enc) = .ok ([], kept)
+  dates : Date.checkDates ⟨(vals (fieldLines (headerLinesOf f.entries)) "Content-Type").head?, f.kind.isBinary, f.kind.isTemplate,
+    vals (fieldLines (headerLinesOf f.entries)) "POT-Creation-Date", vals (fieldLines (headerLinesOf f.entries)) "PO-Revision-Date", now⟩ = some []
+  project : ∃ v, vals (fieldLines (headerLinesOf f.entries)) "Project-Id-Version" = [v] ∧
+    ¬ (v = "PACKAGE VERSION".toList ∨ v = "PROJECT VERSION".toList) ∧ HasLetter x.db v ∧ HasAsciiDigit v
+  report : ∃ v, vals (fieldLines (headerLinesOf f.entries)) "Report-Msgid-Bugs-To" = [v] ∧ v ≠ [] ∧
+    ((¬ HasAt (x.parseaddr v) ∧ ∃ s, x.urlScheme v = some s ∧ s ≠ [])
+     ∨ (HasAt (x.parseaddr v) ∧ AddrIs x ["EMAIL@ADDRESS"] (x.parseaddr v) .fine))
+  translator : ∃ v, vals (fieldLines (headerLinesOf f.entries)) "Last-Translator" = [v] ∧ HasAt (x.parseaddr v) ∧
+    AddrIs x ["EMAIL@ADDRESS"] (x.parseaddr v) .fine
+  team : ∃ v, vals (fieldLines (headerLinesOf f.entries)) "Language-Team" = [v] ∧
+    (¬ HasAt (x.parseaddr v)
+     ∨ (AddrIs x ["EMAIL@ADDRESS", "LL@li.org"] (x.parseaddr v) .fine ∧
+        ∀ w ∈ vals (fieldLines (headerLinesOf f.entries)) "Last-Translator", x.parseaddr w ≠ x.parseaddr v))
+
 end Rules
 
 end I18n.Spec.HeaderRules
